@@ -20,6 +20,16 @@ PROPS = {
         "technique": "bounded exhaustive exploration of operation sequences with an invariant monitor on every transition",
         "assumptions": ["a case cut by the per-case CPU/memory budget is counted as cut (C03's subject), not judged"],
     },
+    "C14": {
+        "bin": "px_sixel", "budget_ms": 20000, "case_wall_ms": 8000, "judge_budget": True, "wall_cap": {"quick": 120, "thorough": 2400},
+        "rule": "payloads: every string of <=5 (thorough 6) tokens over a 16-token sixel alphabet through Sixel::parse_from; schedules: every interleaving of in-order arrivals, "
+                "any-order completions (decode threads held at the cfg gate and released one by one) and 0..P polls in every gap for k<=4 images in flight x image-to-arrival assignments, "
+                "the count cross-checked against an independent DP; oracle after every poll against a sequential reference model; non-trivial = payload sets at least one pixel / every schedule",
+        "level_text": "all schedules of the polling protocol for k<=4 in-flight decodes are executed on the real spawn/queue/poll code under a harness-owned gate, and all payloads up to the depth bound are decoded by the real decoder",
+        "level_note": "the gate hook (cfg icy_engine_verif) shadows the DCS string inside execute_dcs; decode completion is observed through JoinHandle::is_finished of the public queue; no memory-model interleavings are claimed (no shared mutable state between decode and poller)",
+        "technique": "exhaustive schedule enumeration (completion orders x poll placements) of real threads under a controlled gate + bounded exhaustive payload enumeration against a reference model",
+        "assumptions": ["font cell is 8x16 px (default font) for the covering relation", "a poll that takes >500 ms or blocks (case wall watchdog) counts as blocking"],
+    },
     "C18": {
         "bin": "px_finite", "max_shards": 4,
         "rule": "complete enumeration of 3x256 attribute bytes, all (fg,bg,blink,bold) tuples expressible in each mode, 4x256 code page codes, 4x63 typed characters; "
@@ -42,9 +52,11 @@ PROPS = {
     },
 }
 
-HOOK_COMMITS = []
+HOOK_COMMITS = ["81babd1"]
 
 ENGINES = [
+    {"name": "px_sixel", "path": "harness/src/bin/px_sixel.rs", "serves_properties": ["C14"],
+     "kind_free_text": "schedule enumerator for the sixel decode queue under the cfg gate + payload enumerator with a reference model"},
     {"name": "px_stream", "path": "harness/src/bin/px_stream.rs", "serves_properties": ["C01", "C09"],
      "kind_free_text": "stateless depth-bounded sequence explorer over token alphabets of the terminal emulations, start contexts, per-character oracle"},
     {"name": "px_finite", "path": "harness/src/bin/px_finite.rs", "serves_properties": ["C18", "C19"],
